@@ -653,6 +653,57 @@ def expected_from_lib(ctx, ds, procs):
     return [f'{t} .' for t in base[1]]
 
 
+def multi_section_case(ctx, procs):
+    """Several data source sections whose databases hold a table of the SAME name (and two CSV files of the same relative name
+    in different working directories are not possible, so relational sources are used) with different rows, each section with its
+    own mapping and predicate, hence its own mapping groups.  The expected result is computed from the inserted rows; every process
+    count must give it (groups that happen to be handled by the same process must stay independent of each other)."""
+    import sqlite3
+    _, l = ensure_scripts(ctx)
+    root = os.path.join(ctx.tmp, 'multi')
+    os.makedirs(root, exist_ok=True)
+    rng = random.Random(ctx.seed * 31 + 5)
+    nsec = 3
+    expected = set()
+    cfg_sections = []
+    for k in range(nsec):
+        db = os.path.join(root, f'db{k}.sqlite')
+        con = sqlite3.connect(db)
+        con.execute('CREATE TABLE users (id TEXT, name TEXT)')
+        for i in range(rng.randrange(2, 6)):
+            ident, name = f'u{i}', f'n{k}_{i}_{rng.randrange(1000)}'
+            con.execute('INSERT INTO users VALUES (?, ?)', (ident, name))
+            expected.add(f'<http://ex.org/user/{ident}> <http://ex.org/name{k}> "{name}"')
+        con.commit()
+        con.close()
+        mp = os.path.join(root, f'm{k}.ttl')
+        with open(mp, 'w') as f:
+            f.write(f'''@prefix rr: <http://www.w3.org/ns/r2rml#> .
+<http://ex.org/TM{k}> rr:logicalTable [ rr:tableName "users" ];
+  rr:subjectMap [ rr:template "http://ex.org/user/{{id}}" ];
+  rr:predicateObjectMap [ rr:predicate <http://ex.org/name{k}>; rr:objectMap [ rr:column "name" ] ] .
+''')
+        cfg_sections.append(f'[DS{k}]\nmappings={mp}\ndb_url=sqlite:///{db}\n')
+    for n in procs:
+        rd = os.path.join(root, f'run{n}')
+        os.makedirs(rd, exist_ok=True)
+        cfg = os.path.join(rd, 'c.ini')
+        with open(cfg, 'w') as f:
+            f.write(f'[CONFIGURATION]\nnumber_of_processes={n}\nlogging_level=CRITICAL\n' + ''.join(cfg_sections))
+        out = os.path.join(rd, 'res.json')
+        p = subprocess.run([sys.executable, l, cfg, out], env=child_env(), cwd=rd, capture_output=True, text=True, timeout=600)
+        inp = {'kind': 'multi-section', 'nproc': n, 'sections': nsec, 'seed': ctx.seed}
+        ctx.case(inp, nontrivial=True, kind=f'lib multi-section:nproc={n}')
+        if p.returncode != 0 or not os.path.exists(out):
+            ctx.violation(f'materialize_set over {nsec} sections failed with number_of_processes={n}: {(p.stderr or "")[-300:]}', inp)
+            continue
+        with open(out) as f:
+            got = {x.strip() for x in json.load(f)}
+        if got != expected:
+            ctx.violation(f'{nsec} data source sections with same-named tables, number_of_processes={n}: {len(expected - got)} statement(s) lost, '
+                          f'{len(got - expected)} extra, e.g. {sorted(expected ^ got)[:2]}', inp)
+
+
 def run(ctx, lean, findings):
     drv = ctx.get_driver() if ctx.model_available else None
     if not drv:
@@ -678,6 +729,8 @@ def run(ctx, lean, findings):
     # ---- (2) data set, library path, expected statements ---------------------------------------------
     ds = make_dataset(ctx.tmp, ctx.seed, 2 if big else 1)
     expected = expected_from_lib(ctx, ds, [1, 2, 4])
+
+    multi_section_case(ctx, [1, 2, 8])
 
     # ---- (3) CLI: single process first (gives the number of groups), then the process counts ---------
     first = cli_batch(ctx, drv, ds, [{'nproc': 1, 'mode': None, 'variant': 'file', 'tag': 'p1'}], expected, chunk, buf, shape_info, None)
@@ -715,6 +768,11 @@ def run(ctx, lean, findings):
 
 
 def replay(ctx, data):
+    if data.get('input', {}).get('kind') == 'multi-section':
+        before = len(ctx.violations)
+        ctx.seed = data['input'].get('seed', 0)
+        multi_section_case(ctx, [data['input']['nproc']])
+        return len(ctx.violations) > before
     inp = data['input']
     chunk, buf = io_sizes(ctx.tmp)
     shape_info = {'lit_total': 3, 'n_triple': 1}
